@@ -216,4 +216,171 @@ theorem closed_run (asStr : V → Option (List Char)) {k : Nat} : ∀ (ops : Lis
     obtain ⟨hc'', hl''⟩ := closed_run asStr rest (hI.step asStr op hf.head) (hf.tail hI asStr) hc'
     exact ⟨hc'', by rw [run_cons, hl'', hl']⟩
 
+/-! ### An open call is completed by the first event that concerns it -/
+
+theorem remoteErrorFields_eq_spec (asStr : V → Option (List Char)) (body : Option (List V)) :
+    remoteErrorFields asStr body = Spec.errorFields asStr body := by
+  cases body with
+  | none => rfl
+  | some vs =>
+    cases vs with
+    | nil => rfl
+    | cons v vs =>
+      simp only [remoteErrorFields, Spec.errorFields, Option.getD_some, List.head?_cons, Option.bind_some]
+      cases asStr v <;> rfl
+
+theorem step_ready (asStr : V → Option (List Char)) (s : St V R) (op : Op V R) :
+    (step asStr s op).ready = s.ready := by
+  cases op <;> simp only [Txdbus.Calls.step, callOp, callBadOp, retOp, errOp, expireOp, lostOp, fire] <;>
+    repeat' (first | rfl | split)
+
+theorem open_complete_same {s : St V R} (hI : Inv s) {σ k : Nat} {tm : Option Nat}
+    (hp : (σ, (⟨k, tm⟩ : Pending)) ∈ s.pending) (f : Firing V R) :
+    (Closed k (complete s σ k f) ∧ ∀ e ∈ (complete s σ k f).pending, e.1 ≠ σ) ∧
+      firingsOf k (complete s σ k f).log = [f] := by
+  refine ⟨⟨⟨hI.did_lt _ hp, ?_⟩, fun e he => (mem_dDel.mp he).2⟩, ?_⟩
+  · intro e he hd
+    have he' := mem_dDel.mp he
+    have := hI.did_inj e he'.1 _ hp hd
+    exact he'.2 (by rw [this])
+  · simp only [complete, firingsOf_append, firingsOf_single_self]
+    rw [firingsOf_eq_nil (fun x hx => hI.unfired _ hp x hx)]
+    rfl
+
+theorem open_step {s : St V R} (hI : Inv s) (hr : s.ready = true) (asStr : V → Option (List Char))
+    (op : Op V R) (hf : FreshOp s op) {σ k : Nat} {tm : Option Nat}
+    (hp : (σ, (⟨k, tm⟩ : Pending)) ∈ s.pending) :
+    match completes asStr σ k tm.isSome op with
+    | some f => (Closed k (step asStr s op) ∧ ∀ e ∈ (step asStr s op).pending, e.1 ≠ σ) ∧
+        firingsOf k (step asStr s op).log = [f]
+    | none => (σ, (⟨k, tm⟩ : Pending)) ∈ (step asStr s op).pending := by
+  cases op with
+  | call σ' er tmo rs =>
+    simp only [completes]
+    cases er with
+    | true =>
+      simp only [Txdbus.Calls.step, callOp_true_eq (hf σ' rfl)]
+      exact List.mem_append_left _ hp
+    | false => simpa [Txdbus.Calls.step, callOp, fire] using hp
+  | callBad rs =>
+    simp only [completes]
+    simpa [Txdbus.Calls.step, callBadOp, fire] using hp
+  | ret rsn msg =>
+    simp only [completes]
+    rcases retOp_char hI rsn msg with ⟨hno, h⟩ | ⟨p, hp', h⟩
+    · have hne : rsn ≠ σ := fun heq => hno _ hp heq.symm
+      simp only [hne, if_false, Txdbus.Calls.step, h]
+      exact hp
+    · by_cases heq : rsn = σ
+      · subst heq
+        have hpe := hI.key_inj _ hp' _ hp rfl
+        cases hpe
+        simp only [if_true, Txdbus.Calls.step, h]
+        exact open_complete_same hI hp _
+      · simp only [heq, if_false, Txdbus.Calls.step, h]
+        exact mem_dDel.mpr ⟨hp, fun h' => heq h'.symm⟩
+  | err rsn name body =>
+    simp only [completes]
+    rcases errOp_char hI asStr rsn name body with ⟨hno, h⟩ | ⟨p, hp', h⟩
+    · have hne : rsn ≠ σ := fun heq => hno _ hp heq.symm
+      simp only [hne, if_false, Txdbus.Calls.step, h]
+      exact hp
+    · by_cases heq : rsn = σ
+      · subst heq
+        have hpe := hI.key_inj _ hp' _ hp rfl
+        cases hpe
+        simp only [if_true, Txdbus.Calls.step, h, remoteErrorFields_eq_spec]
+        exact open_complete_same hI hp _
+      · simp only [heq, if_false, Txdbus.Calls.step, h]
+        exact mem_dDel.mpr ⟨hp, fun h' => heq h'.symm⟩
+  | expire tid =>
+    simp only [completes]
+    rcases expireOp_char hI tid with ⟨hno, h⟩ | ⟨σ', hm, hp', h⟩
+    · have hne : ¬ (tm.isSome = true ∧ tid = k) := by
+        rintro ⟨h1, h2⟩
+        obtain ⟨t, ht⟩ := Option.isSome_iff_exists.mp h1
+        obtain ⟨h3, h4⟩ := hI.timer_did _ hp t ht
+        simp only at h3 h4
+        subst h3
+        exact hno _ h4 h2.symm
+      simp only [hne, if_false, Txdbus.Calls.step, h]
+      exact hp
+    · by_cases heq : tid = k
+      · subst heq
+        have hpe := hI.did_inj _ hp' _ hp rfl
+        cases hpe
+        simp only [Option.isSome_some, and_self, if_true, Txdbus.Calls.step, h]
+        exact open_complete_same hI hp _
+      · have hne : ¬ (tm.isSome = true ∧ tid = k) := fun h' => heq h'.2
+        simp only [hne, if_false, Txdbus.Calls.step, h]
+        refine mem_dDel.mpr ⟨hp, ?_⟩
+        intro hσ
+        have := hI.key_inj _ hp _ hp' hσ
+        cases this
+        exact heq rfl
+  | lost r =>
+    simp only [completes, Txdbus.Calls.step, lostOp_char hI hr, firingsOf_append]
+    refine ⟨⟨⟨hI.did_lt _ hp, by simp⟩, by simp⟩, ?_⟩
+    rw [firingsOf_eq_nil (fun x hx => hI.unfired _ hp x hx),
+      firingsOf_map_entry _ s.pending hI.nodup hI.did_inj hp]
+    rfl
+
+/-- A serial that is neither in the table nor registered later never enters the table. -/
+theorem keyfree_run (asStr : V → Option (List Char)) {σ : Nat} : ∀ (ops : List (Op V R)) {s : St V R},
+    Inv s → FreshRun s ops → (∀ e ∈ s.pending, e.1 ≠ σ) → σ ∉ ops.filterMap regSerial →
+    ∀ e ∈ (run asStr s ops).pending, e.1 ≠ σ
+  | [], _, _, _, h, _ => h
+  | op :: rest, s, hI, hf, h, hn => by
+    rw [run_cons]
+    refine keyfree_run asStr rest (hI.step asStr op hf.head) (hf.tail hI asStr) ?_ ?_
+    · intro e he
+      rcases step_pending_keys hI asStr op hf.head e he with h' | h'
+      · exact h e h'
+      · intro heq
+        apply hn
+        rw [List.filterMap_cons, h']
+        simp [heq]
+    · intro hm
+      apply hn
+      rw [List.filterMap_cons]
+      cases regSerial op <;> simp [hm]
+
+/-- What became of a call that was in the table, after any further operations. -/
+theorem open_run (asStr : V → Option (List Char)) {σ k : Nat} {tm : Option Nat} :
+    ∀ (ops : List (Op V R)) {s : St V R}, Inv s → s.ready = true → FreshRun s ops →
+      (σ, (⟨k, tm⟩ : Pending)) ∈ s.pending →
+      firingsOf k (run asStr s ops).log = (firstCompletion asStr σ k tm.isSome ops).toList ∧
+      (firstCompletion asStr σ k tm.isSome ops = none → (σ, (⟨k, tm⟩ : Pending)) ∈ (run asStr s ops).pending) ∧
+      (firstCompletion asStr σ k tm.isSome ops ≠ none →
+        Closed k (run asStr s ops) ∧ ∀ e ∈ (run asStr s ops).pending, e.1 ≠ σ)
+  | [], s, hI, _, _, hp => by
+    simp only [run, List.foldl_nil, firstCompletion, Option.toList_none]
+    exact ⟨firingsOf_eq_nil (fun x hx => hI.unfired _ hp x hx), fun _ => hp, fun h => absurd rfl h⟩
+  | op :: rest, s, hI, hr, hf, hp => by
+    have hstep := open_step hI hr asStr op hf.head hp
+    have hI' := hI.step asStr op hf.head
+    have hf' := hf.tail hI asStr
+    have hσ : σ ∉ (op :: rest).filterMap regSerial := fun hm => hf.2 σ hm _ hp rfl
+    have hσ' : σ ∉ rest.filterMap regSerial := by
+      intro hm
+      apply hσ
+      rw [List.filterMap_cons]
+      cases regSerial op <;> simp [hm]
+    rw [run_cons]
+    simp only [firstCompletion]
+    cases hc : completes asStr σ k tm.isSome op with
+    | some f =>
+      rw [hc] at hstep
+      simp only at hstep ⊢
+      have hcl := closed_run asStr rest hI' hf' hstep.1.1
+      refine ⟨?_, ?_, ?_⟩
+      · rw [hcl.2, hstep.2]; rfl
+      · intro h; cases h
+      · intro _
+        exact ⟨hcl.1, keyfree_run asStr rest hI' hf' hstep.1.2 hσ'⟩
+    | none =>
+      rw [hc] at hstep
+      simp only at hstep ⊢
+      exact open_run asStr rest hI' (by rw [step_ready, hr]) hf' hstep
+
 end Txdbus.Calls
